@@ -237,6 +237,32 @@ package fri
 //@   loop 0 invariant -1 <= rangeindex && rangeindex < len(f.friParams.ReductionArityBits) && canonQE(oldEval) && canon(subgroupX) &&
 //@        len(xIndexBits) == nLog - 4 * (rangeindex + 1) && forall(k, 0, len(xIndexBits), isbit(xIndexBits[k])) &&
 //@        forall(i, 0, rangeindex + 1, f.friParams.ReductionArityBits[i] == 4 && i < len(roundProof.Steps) && len(roundProof.Steps[i].Evals) == 16)
+// the fold of one round, pinned at its call sites: the evaluation claimed at the query's own coset position (selected by
+// the four low index bits) is compared with the running value; the next running value is computeEvaluation of this
+// round's sixteen evaluations at this round's beta, at the current domain point and the same four bits; the Merkle
+// opening of the round is that of the sixteen evaluations under the remaining index bits; the domain point is raised
+// (call sites are numbered in SSA block order: the two comparisons after the loop are #0 and #1, those inside it #2 and #3)
+// to the sixteenth power and the index loses its four low bits; after the last round the running value is compared
+// with the final polynomial at the folded point.
+//@   loop 0 invariant forall(k, 0, len(xIndexBits), xIndexBits[k] == atentry(xIndexBits, 0)[k + 4 * (rangeindex + 1)])
+//@   loop 0 invariant subgroupX.Limb == gl_p16_iter(atentry(subgroupX, 0).Limb, rangeindex + 1)
+//@   at_call goldilocks.Chip.AssertIsEqual#2 arg_x == sel16(roundProof.Steps[rangeindex + 1].Evals, xIndexBits)[0] && arg_y == oldEval[0]
+//@   at_call goldilocks.Chip.AssertIsEqual#3 arg_x == sel16(roundProof.Steps[rangeindex + 1].Evals, xIndexBits)[1] && arg_y == oldEval[1]
+//@   at_call fri.Chip.computeEvaluation#0 arg_x == subgroupX && arg_arityBits == 4 && arg_beta == challenges.FriBetas[rangeindex + 1] &&
+//@        len(arg_xIndexWithinCosetBits) == 4 && forall(k, 0, 4, arg_xIndexWithinCosetBits[k] == xIndexBits[k]) &&
+//@        len(arg_evals) == 16 && forall(k, 0, 16, arg_evals[k] == roundProof.Steps[rangeindex + 1].Evals[k])
+//@   at_call fri.Chip.verifyMerkleProofToCapWithCapIndex#0 len(arg_leafData) == 32 && forall(k, 0, 16, arg_leafData[2*k] == roundProof.Steps[rangeindex + 1].Evals[k][0] && arg_leafData[2*k + 1] == roundProof.Steps[rangeindex + 1].Evals[k][1]) &&
+//@        len(arg_leafIndexBits) == len(xIndexBits) - 4 && forall(k, 0, len(arg_leafIndexBits), arg_leafIndexBits[k] == xIndexBits[k + 4]) &&
+//@        len(arg_merkleCap) == len(proof.CommitPhaseMerkleCaps[rangeindex + 1]) && forall(k, 0, len(arg_merkleCap), arg_merkleCap[k] == proof.CommitPhaseMerkleCaps[rangeindex + 1][k])
+//@   at_call fri.Chip.finalPolyEval#0 arg_point == tuple(subgroupX, 0) && len(arg_finalPoly.Coeffs) == len(proof.FinalPoly.Coeffs) && forall(k, 0, len(proof.FinalPoly.Coeffs), arg_finalPoly.Coeffs[k] == proof.FinalPoly.Coeffs[k])
+//@   at_call goldilocks.Chip.AssertIsEqual#0 arg_x == oldEval[0] && arg_y == finalPolyEval[0]
+//@   at_call goldilocks.Chip.AssertIsEqual#1 arg_x == oldEval[1] && arg_y == finalPolyEval[1]
+//@   at_call fri.Chip.friCombineInitial#0 arg_friAlpha == challenges.FriAlpha && arg_subgroupX_QE == tuple(subgroupX, 0) && len(arg_precomputedReducedEval) == len(precomputedReducedEval) && forall(k, 0, len(precomputedReducedEval), arg_precomputedReducedEval[k] == precomputedReducedEval[k])
+
+// x^(16^k): four squarings per reduction step
+//@ recdef gl_p16_iter(x int, k int) int = ite(k <= 0, x, gl_sqr(gl_sqr(gl_sqr(gl_sqr(gl_p16_iter(x, k - 1))))))
+//@ def sel4(e, o, b0, b1) = ite(b1 == 1, ite(b0 == 1, e[o + 3], e[o + 2]), ite(b0 == 1, e[o + 1], e[o]))
+//@ def sel16(e, b) = ite(b[3] == 1, ite(b[2] == 1, sel4(e, 12, b[0], b[1]), sel4(e, 8, b[0], b[1])), ite(b[2] == 1, sel4(e, 4, b[0], b[1]), sel4(e, 0, b[0], b[1])))
 
 //@ def canonOpeningBatches(o) = forall(b, 0, len(o.Batches), canonQEs(o.Batches[b].Values))
 //@ def fri_inputs_canon(p) = forall(i, 0, len(p.QueryRoundProofs), canonRound(p.QueryRoundProofs[i])) && canonQEs(p.FinalPoly.Coeffs)
